@@ -1,5 +1,6 @@
 import Litep2pVerif.Proofs.Service.Conns
 import Litep2pVerif.Proofs.Node.Wiring
+import Litep2pVerif.Proofs.Conn.Outbound
 /-!
 # C08 — Protocols see a well-formed per-peer connection and substream event stream
 
@@ -125,6 +126,107 @@ example :
     (envRun {} {} (ops.take 4)).outstanding = [(1, 1, 10)] := by
   decide
 
+/-- **The connection task answers every open request exactly once unless the connection terminates first** — the
+environment hypothesis of `open_answered_once_unless_closed` ("every connection task completes each pending open it
+received: success, failure or timeout ⇒ failure with the same id") for the TCP connection task, proved about the
+loop model `Model/Conn/Permits.lean` (tied to the real `TcpConnection::start` in the `tcploop` area). Life cycle of a
+request of protocol `i`: *requested* (`OpenSubstream` in the command channel) → *yamux open pending*
+(`Stage.opening`: in `pending_substreams`, `Control::open_stream()` has not returned — and never does while the
+remote leaves `MAX_ACK_BACKLOG` streams unacknowledged) → *negotiating* → *answered*.
+
+1. `handle_protocol_command` moves the oldest request into `pending_substreams` (table entry `⟨outbound, i,
+   opening⟩`), permit and all; the loop goes on.
+2. For EVERY schedule of everything else — other requests in any number, inbound substreams, answers, handles
+   released, channels filling, protocols shutting down, the yamux stream being opened or not — as long as the loop
+   has not returned the request is still pending, for the same protocol, unless a transition that ENDS its own
+   future occurred (`TLabel.endsNeg k`: negotiated under a main or fallback name, failed, or timed out).
+3. The failure / timeout arm is enabled in EITHER pending stage whenever the loop is at its `select!`, and it answers
+   the protocol that asked: `SubstreamOpenFailure` for that request goes to `i` — enqueued at once if `i`'s channel
+   has room (and the loop is back at its `select!`), else the loop is suspended in exactly that send (re-polled when
+   `i` reads, `Model/Conn/Close.lean` `envStep`/`progress`; second example below); the entry leaves
+   `pending_substreams`; the loop does not return.
+4. Success is answered likewise, `SubstreamOpened` to `i`, whichever of `i`'s names was negotiated.
+5. At most once: an entry that has left `pending_substreams` never comes back, for every schedule, and the end of
+   its future can not happen again (`negFail k`, `negOk k _`, `negOkFb k _ _`, `yamuxOpened k` do nothing). -/
+theorem outbound_open_answered_by_loop :
+    (∀ (s : Conn.TLoop) (i : Nat) (q : List Conn.Cmd), s.running = true → s.cmdQ = .openSub i :: q →
+      (Conn.tstep s .takeCmd).subs = s.subs ++ [⟨false, some i, .opening⟩] ∧ (Conn.tstep s .takeCmd).cmdQ = q ∧
+      (Conn.tstep s .takeCmd).loop.exited = none ∧ (Conn.tstep s .takeCmd).running = true) ∧
+    (∀ (s : Conn.TLoop) (ls : List Conn.TLabel) (k : Nat) (x : Conn.Sub),
+      s.subs[k]? = some x → x.stage.pending = true → (Conn.trun s ls).loop.exited = none →
+      (∃ y, (Conn.trun s ls).subs[k]? = some y ∧ y.stage.pending = true ∧ y.inbound = x.inbound ∧ y.proto = x.proto) ∨
+      (∃ l ∈ ls, l.endsNeg k = true)) ∧
+    (∀ (s : Conn.TLoop) (k i : Nat) (x : Conn.Sub), s.running = true → s.subs[k]? = some x →
+      x.stage.pending = true → x.inbound = false → x.proto = some i → Conn.protoAlive s i = true →
+      (Conn.tstep s (.negFail k)).loop.exited = none ∧
+      (Conn.tstep s (.negFail k)).subs[k]? = some { x with stage := .gone } ∧
+      (Conn.hasRoom s i → (Conn.tstep s (.negFail k)).running = true ∧
+        (Conn.tstep s (.negFail k)).loop.ps.log = s.loop.ps.log ++ [.proto i .openFailure] ∧
+        (Conn.tstep s (.negFail k)).loop.ps.call = .idle) ∧
+      (¬ Conn.hasRoom s i → (Conn.tstep s (.negFail k)).loop.cont = some .substreamReport ∧
+        (Conn.tstep s (.negFail k)).loop.ps.call = .protoSends (.substream i false) [i] false ∧
+        (Conn.tstep s (.negFail k)).loop.ps.log = s.loop.ps.log)) ∧
+    (∀ (s : Conn.TLoop) (k i f : Nat) (x : Conn.Sub), s.running = true → s.subs[k]? = some x →
+      x.stage = .negotiating → Conn.protoAlive s i = true →
+      Conn.tstep s (.negOkFb k i f) = Conn.tstep s (.negOk k i) ∧
+      (Conn.tstep s (.negOk k i)).loop.exited = none ∧
+      (Conn.hasRoom s i → (Conn.tstep s (.negOk k i)).running = true ∧
+        (Conn.tstep s (.negOk k i)).loop.ps.log = s.loop.ps.log ++ [.proto i .substreamOpened]) ∧
+      (¬ Conn.hasRoom s i → (Conn.tstep s (.negOk k i)).loop.cont = some .substreamReport ∧
+        (Conn.tstep s (.negOk k i)).loop.ps.call = .protoSends (.substream i true) [i] false)) ∧
+    (∀ (s : Conn.TLoop) (ls : List Conn.TLabel) (k : Nat) (x : Conn.Sub),
+      s.subs[k]? = some x → x.stage.pending = false →
+      ∃ y, (Conn.trun s ls).subs[k]? = some y ∧ y.stage.pending = false ∧
+        Conn.tstep (Conn.trun s ls) (.negFail k) = Conn.trun s ls ∧
+        (∀ p, Conn.tstep (Conn.trun s ls) (.negOk k p) = Conn.trun s ls) ∧
+        (∀ p f, Conn.tstep (Conn.trun s ls) (.negOkFb k p f) = Conn.trun s ls) ∧
+        Conn.tstep (Conn.trun s ls) (.yamuxOpened k) = Conn.trun s ls) := by
+  refine ⟨fun s i q hr hq => Conn.takeCmd_opens s i q hr hq,
+    fun s ls k x hk hx hrun => Conn.trun_pending_or_ended ls s k x hk hx hrun,
+    fun s k i x hr hk hx hout hpr hp => Conn.negFail_answers s hr k i x hk hx hout hpr hp,
+    fun s k i f x hr hk hx hp => ?_, fun s ls k x hk hx => ?_⟩
+  · obtain ⟨h1, h2, h3⟩ := Conn.negOk_live s hr k i x hk hx hp
+    exact ⟨rfl, h1, fun hroom => ⟨(h2 hroom).1, (h2 hroom).2.1⟩, fun hroom => ⟨(h3 hroom).1, (h3 hroom).2.1⟩⟩
+  · obtain ⟨y, hy, hyp⟩ := Conn.trun_not_pending ls s k x hk hx
+    exact ⟨y, hy, hyp, Conn.ended_noop _ k y hy hyp⟩
+
+/-- Non-vacuity (the C08-d2 shape in miniature): a keep-alive protocol takes the connection and asks for two
+substreams; the loop takes both requests; the yamux stream of the first is opened, the second one's never is (remote
+does not acknowledge). Every handle is released: the two pending requests keep the connection. Both time out — one
+from `negotiating`, one from `opening`: two `SubstreamOpenFailure`s reach protocol 0, the loop still runs; a second
+"end" of either future changes nothing; with nothing left the idle exit closes the connection. The hypotheses of
+parts 2, 3 and 5 hold along the way. -/
+example :
+    let s0 := Conn.trun (Conn.tinit [true] 4) [.recv 0, .localOpen 0, .localOpen 0, .takeCmd, .takeCmd, .yamuxOpened 0]
+    let s1 := Conn.trun s0 [.downgrade 0, .idleExit, .yamuxOpened 1]
+    let s2 := Conn.trun s1 [.negFail 1, .negFail 0]
+    s0.subs = [⟨false, some 0, .negotiating⟩, ⟨false, some 0, .opening⟩] ∧ s0.running = true ∧
+    Conn.protoAlive s0 0 = true ∧ Conn.hasRoom s0 0 ∧
+    s1.subs = [⟨false, some 0, .negotiating⟩, ⟨false, some 0, .negotiating⟩] ∧ s1.loop.exited = none ∧ s1.strong = 2 ∧
+    s2.subs = [⟨false, some 0, .gone⟩, ⟨false, some 0, .gone⟩] ∧ s2.running = true ∧
+    s2.loop.ps.log = [.proto 0 .openFailure, .proto 0 .openFailure] ∧
+    Conn.trun s2 [.negFail 0, .negFail 1, .negOk 0 0, .negOkFb 1 0 1, .yamuxOpened 1] = s2 ∧
+    (Conn.trun s2 [.idleExit]).loop.exited = some .ok := by
+  refine ⟨by decide, by decide, by decide, ⟨⟨[], 4, true⟩, by decide, by decide⟩, by decide, by decide, by decide,
+    by decide, by decide, by decide, by decide, by decide⟩
+
+/-- Non-vacuity: a full channel — the failure report is suspended (nothing lost) and arrives when the protocol reads;
+and a request refused because the command channel is full is not a request (`ChannelClogged`, nothing is queued). -/
+example :
+    let s0 := Conn.trun (Conn.tinit [true] 1) [.recv 0, .localOpen 0, .takeCmd, .fill 0]
+    let s1 := Conn.tstep s0 (.negFail 0)
+    let s2 := Conn.tstep s1 (.recv 0)
+    ¬ Conn.hasRoom s0 0 ∧ s1.loop.cont = some .substreamReport ∧ s1.loop.ps.log = [] ∧
+    s2.loop.ps.log = [.proto 0 .openFailure] ∧ s2.running = true := by
+  refine ⟨?_, by decide, by decide, by decide, by decide⟩
+  rintro ⟨c, hc, hlt⟩
+  have : c = ⟨[.filler], 1, true⟩ := by
+    have h : (Conn.trun (Conn.tinit [true] 1) [.recv 0, .localOpen 0, .takeCmd, .fill 0]).loop.ps.chans[0]? =
+        some ⟨[.filler], 1, true⟩ := by decide
+    rw [h] at hc; cases hc; rfl
+  subst this
+  exact absurd hlt (by decide)
+
 /-- **Ids are fresh.** For EVERY history the ids returned by accepted `open_substream` calls are
 strictly increasing — never reused, also across failed sends and allocations by other users of the
 shared counter. -/
@@ -184,3 +286,4 @@ example : ∃ w, Node.new sample = .ok w ∧ w.identifyProtocols =
 end Litep2pVerif.Props.C08.Wiring
 
 #print axioms Litep2pVerif.Props.C08.Wiring.identify_told_every_registered_protocol
+#print axioms Litep2pVerif.Props.C08.outbound_open_answered_by_loop
